@@ -334,9 +334,14 @@ def run_shard(d):
 
     res = comb.run_comb(d, build, ref, 'C08', alphabets='corner' if d.get('corner') else None)
     if res.get('constructor_rejected'):
-        # a refusal is not a violation, but a refusal of a configuration that the documented API is
-        # expected to accept means nothing was checked: let the runner's vacuity guard stop (exit 2)
-        res['vacuous_ok'] = expected_refusal(d)
+        # a refusal of a configuration outside the documented domain is not a violation; a configuration inside it
+        # ("any number of inputs and any width it accepts" - the grid is what the documented API accepts) that cannot even be
+        # built computes nothing: reported as a violation
+        res['vacuous_ok'] = True
+        if not expected_refusal(d):
+            res['violations'].append({'sig': 'C08:%s:refused' % comb.cfgname(d), 'shard': d, 'trace': [],
+                                      'detail': {'problem': 'the constructor refused a configuration of the documented domain',
+                                                 'refusal': res['samples'][0].get('rejected') if res.get('samples') else None}})
     elif res['violations']:
         res['vacuous_ok'] = True      # a constant (stuck) output that is wrong is a violation, not vacuity
     elif len(expected) < 2:
